@@ -300,6 +300,41 @@ def judge(ctx, root, case):
         elif constrained and (rc == 0) != lib_ok and not isinstance(rc, str):
             ctx.violation('cli-lib-disagree', 'CLI exit %r but library %s'
                           % (rc, 'succeeded' if lib_ok else 'failed'), case, detail)
+    # ---- a sub-path given through a directory symlink: the command verifies what
+    # the library verifies for that very path (differential, no model involved)
+    links = []
+    for dp, dn, fn in os.walk(root):
+        for x in sorted(dn):
+            rel = os.path.relpath(os.path.join(dp, x), root)
+            if os.path.islink(os.path.join(dp, x)) and os.path.isdir(os.path.join(dp, x)) \
+                    and not any(c.startswith('.') for c in rel.split('/')):
+                links.append(rel)
+    if links:
+        from gemato.recursiveloader import ManifestRecursiveLoader
+        from vf.model import findtop
+        lsub = sorted(links)[0]
+        ft = findtop.find_top(os.path.join(root, lsub))
+        # (discovery from a symlinked start is only defined where walking up by name
+        # and walking up through the link target agree)
+        ft2 = findtop.find_top(os.path.realpath(os.path.join(root, lsub)))
+        want = {os.path.realpath(os.path.join(root, 'Manifest'))}
+        if not ft.unconstrained and not ft2.unconstrained and \
+                {os.path.realpath(a) if a else a for a in ft.answers} == want and \
+                {os.path.realpath(a) if a else a for a in ft2.answers} == want:
+            try:
+                m2 = ManifestRecursiveLoader(os.path.join(root, 'Manifest'),
+                                             verify_openpgp=False)
+                lib2 = m2.assert_directory_verifies(lsub) is True
+            except Exception:
+                lib2 = False
+            rc2 = run_cli(root, lsub)
+            ctx.count('cli_symlinked_sub_runs')
+            if not isinstance(rc2, (Exception, str)) and (rc2 == 0) != lib2:
+                ctx.violation('cli-lib-disagree:symlinked-sub-path', '`gemato verify '
+                              'TREE/%s` (a directory symlink) exits %r but the library '
+                              'call for that path %s' % (
+                                  lsub, rc2, 'succeeds' if lib2 else 'fails'), case,
+                              detail)
     if cli_ok and expect == 'reject' and not sub:
         # several trees on one command line: a clean one first, then this one
         other = os.path.join(os.path.dirname(root), 'other-tree')
